@@ -12,7 +12,7 @@ import random
 
 import z3
 
-from vlib import circ, circgen, forkexec, refsem, symeval
+from vlib import circ, circgen, forkexec, refsem, report, symeval
 from vlib.symeval import SymState, lift, zb
 from checks.common import REPLAY_PRELUDE, ref_concrete
 
@@ -203,6 +203,89 @@ def table_agreement(p, item, tier, seed):
             except UnsupportedOperationError:
                 pass
 
+    elif what == "subcircuit._get_subcircuits":
+        # the cone tables that the enumerator hands to synthesis: bit k of patterns[out] is the value of `out`
+        # when the announced leaves (inputs[0] most significant) spell k
+        import collections
+
+        import mockturtle_wrapper as mw
+        from cirbo.minimization import subcircuit as sc
+
+        pool = [getattr(G, n) for n in ["NOT", "AND", "NAND", "OR", "NOR", "XOR", "NXOR", "GEQ", "LT", "LEQ", "GT"]]
+        rnd = random.Random(4242 + seed)
+        names = ["a", "b", "zz", "k1", "q", "m7", "w", "x0", "x1", "n", "g3", "h", "t", "u2", "v", "p", "r", "s9", "c", "d"]
+        for trial in range(200 if tier == "thorough" else 50):
+            labels = rnd.sample(names, len(names))
+            c = circgen.random_circuit(rnd, rnd.randint(2, 4), rnd.randint(3, 9), pool=pool, max_arity=2, labels=labels,
+                                       allow_dup_operands=False, outputs_may_be_inputs=False)
+            src = circ.circ_src(c)
+            cut_size = rnd.choice([2, 3, 4])
+            node_cuts = mw.enumerate_cuts(c.format_circuit(), cut_size, 25, 10000)
+            cut_nodes = collections.defaultdict(set)
+            for node, cuts in node_cuts.items():
+                for cut in cuts:
+                    cut_nodes[tuple(cut)].add(node)
+            subs = sc._get_subcircuits(c, list(cut_nodes.keys()), cut_nodes, 10, cut_size)
+            nl = circ.netlist_of(c)
+            types = {lab: t for lab, (t, _) in nl.items()}
+            opsof = {lab: ops for lab, (_, ops) in nl.items()}
+            for sub_ in subs:
+                leaves = list(sub_.inputs)
+                n = len(leaves)
+                zs = {l: z3.Bool(f"leaf{i}") for i, l in enumerate(leaves)}
+                val = dict(zs)
+                ok = True
+                for g in sub_.gates:
+                    if g in val:
+                        continue
+                    if any(o not in val for o in opsof.get(g, ())) or g not in types:
+                        ok = False
+                        break
+                    val[g] = refsem.ref_op(types[g], [val[o] for o in opsof[g]])
+                p.case(("cone-table", circ.snapshot(c)[:3], tuple(leaves)), sample=f"_get_subcircuits: cone over {leaves} of {circ.describe(c)}")
+                if not ok:
+                    p.violation("table:subcircuit.cone:not-closed", f"cone over {leaves} lists gates whose operands are outside it: {sub_.gates} in {circ.describe(c)}",
+                                REPLAY_PRELUDE + CONE_SRC + src + f"\nbad=cone_problems(c, {cut_size})\nprint(bad[:3])\nsys.exit(1 if bad else 0)\n")
+                    continue
+                dis = []
+                for k in range(1 << n):
+                    at = z3.And(*[zs[l] == bool((k >> (n - 1 - j)) & 1) for j, l in enumerate(leaves)]) if leaves else z3.BoolVal(True)
+                    for o in sub_.outputs:
+                        dis.append(z3.And(at, val[o] != bool((sub_.patterns[o] >> k) & 1)))
+                r, m = p.check([z3.Or(*dis)] if dis else [z3.BoolVal(False)], label="cone table")
+                if r == "sat":
+                    p.violation("table:subcircuit.cone:pattern", f"the table of the cone over leaves {leaves} (outputs {sub_.outputs}) is not the function its gates compute, in {circ.describe(c)} with cut_size={cut_size}",
+                                REPLAY_PRELUDE + CONE_SRC + src + f"\nbad=cone_problems(c, {cut_size})\nprint(bad[:3])\nsys.exit(1 if bad else 0)\n")
+
+
+CONE_SRC = '''
+def cone_problems(c, cut_size):
+    import collections, itertools
+    import mockturtle_wrapper as mw
+    from cirbo.minimization import subcircuit as sc
+    node_cuts = mw.enumerate_cuts(c.format_circuit(), cut_size, 25, 10000)
+    cut_nodes = collections.defaultdict(set)
+    for node, cuts in node_cuts.items():
+        for cut in cuts:
+            cut_nodes[tuple(cut)].add(node)
+    bad = []
+    for s in sc._get_subcircuits(c, list(cut_nodes.keys()), cut_nodes, 10, cut_size):
+        leaves, n = list(s.inputs), len(s.inputs)
+        for k, bits in enumerate(itertools.product((False, True), repeat=n)):
+            val = dict(zip(leaves, bits))
+            for g in s.gates:
+                if g in val:
+                    continue
+                gate = c.get_gate(g)
+                if any(o not in val for o in gate.operands):
+                    bad.append(('not closed', leaves, g)); break
+                val[g] = refsem.ref_op_py(gate.gate_type.name, [val[o] for o in gate.operands])
+            else:
+                for o in s.outputs:
+                    if val[o] != bool((s.patterns[o] >> k) & 1):
+                        bad.append((leaves, o, k))
+    return bad
+'''
 
 # --------------------------------------------------------------------- (c)
 def _entrypoint_disagreements(c, zs, ER):
@@ -329,6 +412,15 @@ def _check_concrete_circuit(p, name, c, with_tt=True, build_src=None):
     except forkexec.PathLimit:
         p.queries["unknown"] += 1
         p.inconclusive.append(f"{name}: the evaluator branches on gate values too many ways to decide {circ.describe(c)[:120]} by forking")
+        return
+    except Exception as e:  # noqa: BLE001
+        if not report.raised_in_library(e):
+            raise
+        # an evaluation entry point refused a well-formed circuit
+        p.case(("compose-raises", circ.snapshot(c)[:3]), sample=f"{name}: {circ.describe(c)}")
+        p.violation(f"evaluate:raises:{type(e).__name__}:{name.split('[')[0]}",
+                    f"an evaluation entry point raised {type(e).__name__}: {e} on the well-formed circuit {circ.describe(c)}",
+                    _replay_for(build_src or circ.circ_src(c), {lab: False for lab in c.inputs}, "raised " + type(e).__name__, None))
         return
     if len(paths) > 1:
         p.count("circuits_evaluated_on_several_paths")
@@ -649,7 +741,7 @@ def run(rep, tier, seed, only=None):
         rep.pmap(operator_lemmas, items, chunksize=4)
     if sub("tables"):
         rep.pmap(table_agreement, ["circuit_search.Operation", "circuit_search._tt_to_gate_type",
-                                   "arithmetics._utils.binary_tt_to_type", "subcircuit._PatternOperations"])
+                                   "arithmetics._utils.binary_tt_to_type", "subcircuit._PatternOperations", "subcircuit._get_subcircuits"])
     if sub("feature"):
         rep.pmap(compose_concrete, [("feature", k) for k in range(4)] + [("large", (i, r)) for i in (0, 1) for r in (False, True)])
     if sub("seeded"):
